@@ -39,6 +39,7 @@ type Obligation struct {
 	results []Val  // result values at the return this clause obligation belongs to (replay)
 	post    *State // state at that return
 	Inherited bool // the obligation carries the function-level property list (no tag of its own)
+	batchFrom int // batches: number of lines that existed before the first member
 	exclude map[*Obligation]bool // batch members: their own assumption lines are left out
 }
 
